@@ -492,6 +492,7 @@ type v20Hist struct {
 
 	runDone chan struct{}
 	runErr  error
+	runPanic string
 	started bool
 
 	sigQ      []int
@@ -513,6 +514,17 @@ type v20Hist struct {
 	fails   [][2]string // direct-oracle failures (kind, detail)
 	stats   map[string]int
 	deadAt  string
+}
+
+// Run in its goroutine; a panic inside Run (it would kill the process) is recorded, not propagated
+func (h *v20Hist) runCollector(col *Collector) {
+	defer close(h.runDone)
+	defer func() {
+		if r := recover(); r != nil {
+			h.runPanic = fmt.Sprint(r)
+		}
+	}()
+	h.runErr = col.Run(h.ctx)
 }
 
 func (h *v20Hist) fail(kind, detail string) { h.fails = append(h.fails, [2]string{kind, detail}) }
@@ -764,6 +776,11 @@ func (h *v20Hist) injSig(s int) {
 		h.sigQ = append(h.sigQ, s)
 	default:
 		h.stats["signal_dropped"]++
+		if len(h.sigQ) < 3 {
+			// Run notifies on three signals (SIGHUP, SIGINT, SIGTERM): with fewer than three pending none may be lost
+			h.fail("signal-lost", fmt.Sprintf("signal %v delivered with only %d signal(s) pending was dropped (signalsChannel capacity %d): a termination / reload request is lost",
+				sigs[s], len(h.sigQ), cap(h.w.col.signalsChannel)))
+		}
 	}
 	h.emit(v20LSig, s, h.pc != v20PcIdle)
 }
@@ -1032,10 +1049,7 @@ func v20RunHistory(idx int) v20Result {
 				switch h.pc {
 				case v20PcInit:
 					h.started = true
-					go func() {
-						h.runErr = col.Run(h.ctx)
-						close(h.runDone)
-					}()
+					go h.runCollector(col)
 					h.follow(v20PcInit)
 				case v20PcSetup, v20PcReload, v20PcFinal:
 					from := h.pc
@@ -1085,10 +1099,7 @@ func v20RunHistory(idx int) v20Result {
 			switch {
 			case force || r.Intn(100) < 70:
 				h.started = true
-				go func() {
-					h.runErr = col.Run(h.ctx)
-					close(h.runDone)
-				}()
+				go h.runCollector(col)
 				h.follow(v20PcInit)
 			default:
 				h.inject(false, false, &fatalBudget)
@@ -1285,6 +1296,8 @@ func v20LogOracle(fail func(kind, detail string), log []v20Ev, provShutBy map[in
 	shut := map[key]int{}
 	closes := map[key]int{}
 	opened := map[key]bool{}
+	failedShut := ""
+	startFailed := map[int]bool{}
 	sawClosed := false
 	for i, e := range log {
 		if sawClosed {
@@ -1292,6 +1305,9 @@ func v20LogOracle(fail func(kind, detail string), log []v20Ev, provShutBy map[in
 		}
 		switch e.kind {
 		case v20EvCreate, v20EvStartOk, v20EvStartFail:
+			if failedShut != "" {
+				fail("bringup-after-failed-shutdown", fmt.Sprintf("event %d: component %d of generation %d created/started although %s had failed to shut down (the run must end with that error)", i, e.b, e.a, failedShut))
+			}
 			for k := range live {
 				if k.g != e.a {
 					fail("two-configurations-live", fmt.Sprintf("event %d: component %d of generation %d created/started while component %d of generation %d is live", i, e.b, e.a, k.c, k.g))
@@ -1300,11 +1316,21 @@ func v20LogOracle(fail func(kind, detail string), log []v20Ev, provShutBy map[in
 			if e.phase != StateStarting {
 				fail("bringup-outside-starting", fmt.Sprintf("event %d kind=%d state=%s", i, e.kind, e.phase))
 			}
+			if e.kind == v20EvStartFail {
+				startFailed[e.a] = true
+			}
 			if e.kind == v20EvStartOk {
 				live[key{e.a, e.b}] = true
 				started[key{e.a, e.b}] = true
 			}
 		case v20EvShutOk, v20EvShutFail:
+			if want := map[bool]State{false: StateClosing, true: StateStarting}[startFailed[e.a]]; e.phase != want {
+				// a started service is retired / stopped in state Closing; only the clean-up after a failed Start runs in Starting
+				fail("shutdown-in-wrong-state", fmt.Sprintf("event %d: component %d of generation %d shut down in state %s, expected %s", i, e.b, e.a, e.phase, want))
+			}
+			if e.kind == v20EvShutFail && failedShut == "" {
+				failedShut = fmt.Sprintf("component %d of generation %d", e.b, e.a)
+			}
 			delete(live, key{e.a, e.b})
 			shut[key{e.a, e.b}]++
 			if shut[key{e.a, e.b}] > 1 {
@@ -1330,6 +1356,12 @@ func v20LogOracle(fail func(kind, detail string), log []v20Ev, provShutBy map[in
 		if n > 1 {
 			fail("provider-shutdown-twice", fmt.Sprintf("registered provider %d shut down %d times", p, n))
 		}
+	}
+	if cls := v20ErrClass(runErr); returned && cls >= 2 && cls <= 5 && final != StateClosed {
+		fail("initial-failure-not-closed", fmt.Sprintf("Run returned the initial bring-up error (%v) with the state left at %s", runErr, final))
+	}
+	if returned && failedShut != "" && runErr == nil {
+		fail("shutdown-error-swallowed", "Run returned nil although "+failedShut+" failed to shut down")
 	}
 	if returned {
 		for k := range live {
@@ -1374,7 +1406,10 @@ func (h *v20Hist) finish() v20Result {
 	returned := h.pc == v20PcDone
 	final := w.col.GetState()
 
-	v20LogOracle(h.fail, log, provShutBy, 1+w.nAux, returned, h.stopTaken, h.runErr, final)
+	if h.runPanic != "" {
+		h.fail("run-panics", "Run panicked (the process would crash): "+h.runPanic)
+	}
+	v20LogOracle(h.fail, log, provShutBy, 1+w.nAux, returned && h.runPanic == "", h.stopTaken, h.runErr, final)
 	// case term
 	gs := make([]string, len(w.gens))
 	for i, g := range w.gens {
